@@ -671,7 +671,10 @@ def c16_track(R):
         for meth, recv in (("_blank_copy", None), ("__setstate__", "self")):
             fn = cms[meth]
             rv = recv or util.func_param(fn, 1)
-            ok = any(a == "_track" for a, kind, node, val in util.attr_writes(fn, rv))
+            ok = any(
+                a == "_track" and (meth != "_blank_copy" or "self._track" in ast.unparse(val))
+                for a, kind, node, val in util.attr_writes(fn, rv)
+            )
             R.check(
                 ok,
                 mm,
